@@ -96,8 +96,8 @@ let run_temp col zones op lit =
       | None -> None
       | Some x -> Some (Printf.sprintf "%s:%s:%s:%s" (string_of_n z) (string_of_z x.Temporal.z_min) (string_of_z x.Temporal.z_max)
                           (join "." (SL.map string_of_n x.Temporal.z_keys)))) zids in
-  let res = Temporal.apply_temporal_only is_ts ix (op_of op) (temp_lit lit) in
-  Printf.sprintf "cal=%s zti=%s res=%s" cal (join ";" zt) (show res)
+  let res = SL.map (fun l -> show (Temporal.apply_temporal_only is_ts ix (op_of op) (temp_lit l))) (split_on ',' lit) in
+  Printf.sprintf "cal=%s zti=%s res=%s" cal (join ";" zt) (join "|" res)
 
 (* ---------------- xor *)
 let xor_scalar (tok : string) : XorKey.scalar option =
